@@ -117,6 +117,7 @@ func c06Cfg(excluded *int) gen.Cfg {
 	cfg.CommitWeight = 30
 	cfg.Faults = 4
 	cfg.TearMeta = 3 // an interrupted meta write of an unfinished transaction leaves a torn OLDER slot behind
+	cfg.MidReaders = 15
 	return cfg
 }
 
